@@ -287,7 +287,9 @@ class Ref:
                 s1, s2 = np.maximum(np.sin(th1), 1e-300), np.maximum(np.sin(th2), 1e-300)
                 lm = [np.maximum(x, 1e-300) for x in (l1, l2, l3)]
                 G = 1 / (lm[0] * s1) + 1 / (lm[2] * s2) + (1 / s1 + 1 / s2) / lm[1]
-                self.tol[f] = 4 * delta * G + 32 * R.EPS32 * (1 / s1 + 1 / s2) + 8 * R.EPS32
+                # last term: both cross products lose relative accuracy eps/sin(theta) in float32, and the torsion is read off
+                # their mutual orientation: with BOTH bond angles small the errors multiply (second order in 1/sin)
+                self.tol[f] = 4 * delta * G + 32 * R.EPS32 * (1 / s1 + 1 / s2) + 8 * R.EPS32 + 16 * R.EPS32 / (s1 * s2)
                 self.cond[f] = (self.nondeg[f] & (th1 >= 1e-3) & (th1 <= np.pi - 1e-3) & (th2 >= 1e-3) & (th2 <= np.pi - 1e-3)
                                 & (self.tol[f] <= 0.1))
             else:
